@@ -17,6 +17,8 @@ KEYCODES = {
               mid=[10 * i for i in range(1, 17)], below=0, above=2**64 - 1),
     'O': dict(ext=[None, -2**70, -2**63 - 1, -2**31, -1, 0, 1, 2, 3, 255, 2**31, 2**32, 2**63, 2**64, 2**70, 2**71],
               mid=['b', 'd', 'f', 'h', 'j', 'l', 'n', 'p', 'q', 'r', 's', 't', 'u', 'v', 'w', 'x'],
+              # orderable but unhashable keys (lists): legal object keys; nothing may try to hash them
+              lst=[[i] for i in range(1, 17)],
               below='a', above='z'),
     'f': dict(ext=[b'\x00\x00', b'\x00\x01', b'\x00\xff', b'\x01\x00', b'\x01\x01', b'0\x00', b'a\x00', b'ab',
                    b'ac', b'b\x00', b'\x7f\xff', b'\x80\x00', b'\x80\x01', b'\xff\x00', b'\xff\xfe', b'\xff\xff'],
@@ -62,7 +64,7 @@ class Embedding:
         kc = KEYCODES[fam[0]]
         vc = VALCODES[fam[1]]
         self.keys = list(kc[which])
-        self.vals = list(vc[which])
+        self.vals = list(vc.get(which, vc['mid']))
         self.below, self.above = kc['below'], kc['above']
         self.krank = {self._h(k): i + 1 for i, k in enumerate(self.keys)}
         self.vrank = {self._h(v): i + 1 for i, v in enumerate(self.vals)}
@@ -71,7 +73,7 @@ class Embedding:
     def _h(x):
         # 1, 1.0 and True hash alike; keep type out of it on purpose (the
         # containers normalise ints/floats) but None/bytes/str stay distinct
-        return x
+        return ('list',) + tuple(x) if isinstance(x, list) else x
 
     def key(self, r):
         return self.keys[r - 1]
@@ -83,7 +85,7 @@ class Embedding:
         """rank of a real key; unknown keys are rendered as a string so that a
         comparison with the model fails loudly instead of crashing"""
         try:
-            return self.krank[k]
+            return self.krank[self._h(k)]
         except (KeyError, TypeError):
             return 'key?%r' % (k,)
 
